@@ -302,6 +302,25 @@ theorem linv_advance_pre {s : RN} (h : LInv s) {d : Int} (hd : 0 ≤ d) : LInv {
     exact ⟨h1, by show s.armedAt ≤ s.now + d; omega, h3, h4⟩
   · exact dinv_congr (s := s) rfl rfl rfl rfl rfl h.data
 
+theorem wake_dirOn (s : RN) : (wake s).dirOn = s.dirOn := by
+  have fs := fetch_spec s
+  rcases wake_cases s with ⟨_, hw⟩ | ⟨_, hw⟩ | ⟨_, _, hw⟩ | ⟨_, _, _, hw⟩ | ⟨_, _, c, _, hw⟩ <;> rw [hw]
+  · exact (arm_fields s).2.2.2.2.2.2.2.2.2.1
+  · exact (arm_fields s).2.2.2.2.2.2.2.2.2.1
+  · exact fs.dirOn
+  · rw [(arm_fields _).2.2.2.2.2.2.2.2.2.1]; exact fs.dirOn
+
+theorem settle_dirOn : ∀ (n : Nat) (s : RN), (settle n s).dirOn = s.dirOn := by
+  intro n
+  induction n with
+  | zero => intro s; rfl
+  | succ n ih =>
+    intro s
+    simp only [settle]
+    split
+    · rw [ih, wake_dirOn]
+    · rfl
+
 def start0 (dirOn : Bool) (a0 : Nat) (script : List Reply) (t0 : Int) : RN :=
   { now := t0, script := script, dirOn := dirOn, anchors := a0 }
 
@@ -344,5 +363,18 @@ theorem rinv {dirOn : Bool} {a0 : Nat} {script : List Reply} {t0 : Int} {s : RN}
     obtain ⟨hl, hdue⟩ := ih
     refine ⟨⟨hl.waiting, hl.retrying, dinv_congr (s := s) rfl rfl rfl rfl rfl hl.data⟩, ?_⟩
     exact hdue
+
+theorem rreach_dirOn {dirOn : Bool} {a0 : Nat} {script : List Reply} {t0 : Int} {s : RN}
+    (h : RReach dirOn a0 script t0 s) : s.dirOn = dirOn := by
+  induction h with
+  | start =>
+    have fs := fetch_spec (start0 dirOn a0 script t0)
+    rcases start_cases dirOn a0 script t0 with ⟨_, hs⟩ | ⟨c, _, hs⟩
+    · rw [hs]; exact fs.dirOn
+    · rw [hs]; simp only [settled]; rw [settle_dirOn, (arm_fields _).2.2.2.2.2.2.2.2.2.1]; exact fs.dirOn
+  | @adv s d _ _ ih =>
+    show (settle _ { s with now := s.now + d }).dirOn = dirOn
+    rw [settle_dirOn]; exact ih
+  | anch a _ ih => exact ih
 
 end Kit.Spiffe
